@@ -36,17 +36,42 @@ func runC19(r *Run, p *Prog) {
 
 	// roles
 	var parser *ssa.Function // Service method that splits its string parameter at ":"
+	splitsAtColon := func(f *ssa.Function) bool {
+		for _, cs := range callsNamed(f, false, "strings.SplitN", "strings.Split", "strings.Cut", "strings.Index", "strings.IndexByte") {
+			if len(cs.Common.Args) >= 2 {
+				if a := T.T(cs.Common.Args[1]); a == `const:":"` || a == "const:58" {
+					return true
+				}
+			}
+		}
+		return false
+	}
 	for _, f := range p.FuncsOf(pkgVarlink) {
 		// (a method of the Service or of a state struct the Service holds by value: `(*endpoint).parse`)
 		if f.Signature.Recv() == nil || !isServiceState(f.Signature.Recv().Type()) {
 			continue
 		}
-		for _, cs := range callsNamed(f, false, "strings.SplitN", "strings.Split", "strings.Cut", "strings.Index", "strings.IndexByte") {
-			if a := ""; len(cs.Common.Args) >= 2 {
-				a = T.T(cs.Common.Args[1])
-				if a != `const:":"` && a != "const:58" {
-					continue
+		if splitsAtColon(f) {
+			parser = f
+		}
+	}
+	if parser == nil {
+		// the split is written in a helper shared with the client (`parseAddress(s) (address, bool)`): the parser is
+		// the innermost method of the Service (or of a state struct) whose inlined view splits its argument
+		cands := map[*ssa.Function]bool{}
+		for _, f := range p.FuncsOf(pkgVarlink) {
+			if f.Parent() == nil && f.Signature.Recv() != nil && isServiceState(f.Signature.Recv().Type()) && len(f.Blocks) > 0 && splitsAtColon(p.Inlined(f, nil)) {
+				cands[f] = true
+			}
+		}
+		for f := range cands {
+			inner := true
+			for g := range cg.Reach([]*ssa.Function{f}, false) {
+				if g != f && cands[g] {
+					inner = false
 				}
+			}
+			if inner && (parser == nil || f.Pos() < parser.Pos()) {
 				parser = f
 			}
 		}
